@@ -10,7 +10,7 @@ import typing
 from dataclasses import dataclass, field
 from typing import Dict, List, Optional
 
-from adaptix import Retort
+from adaptix import P, Retort, loader
 from adaptix.conversion import ConversionRetort
 
 from ..adx import attempt, error_sig
@@ -120,6 +120,44 @@ def op_fdump(tp, obj):
     return body
 
 
+class Weird:
+    __slots__ = ("v",)
+
+    def __init__(self, *args):
+        self.v = args
+
+    def __eq__(self, other):
+        return type(other) is Weird and self.v == other.v
+
+    __hash__ = None
+
+
+@dataclass
+class FM:
+    f: Optional["FN"] = None
+
+
+@dataclass
+class FN:
+    m: FM
+    w: Weird
+
+
+@dataclass
+class FC:
+    root: FM
+
+
+FC_DATA = {"root": {"f": {"m": {"f": {"m": {}, "w": 2}}, "w": 1}}}
+
+
+def failing_retort():
+    """Weird is loadable only below FC.root.f: a request for FM alone always FAILS (after it has cached a closure that holds a recursion
+    stub), a request for FC always succeeds. Whatever the interleaving, the failing thread gets ProviderNotFoundError and the other one
+    its result (seeded change: the failed search released the lock before it dropped its closures from the call cache)."""
+    return Retort(recipe=[loader(P[FC].root.f[FN].w, Weird)])
+
+
 class Bundle:
     """A shared retort and a second retort that has the shared one in its recipe (a retort acting as a provider)."""
 
@@ -159,11 +197,15 @@ SCENARIOS = {
     "facade-load-different-types": (Retort, [op_fload(Flat, FLAT_DATA), op_fload(FlatTwin, FLAT_DATA)]),
     "facade-dump-different-types": (Retort, [op_fdump(Flat, Flat(1, ["x"], {"k": 1})), op_fdump(Node, NODE_OBJ)]),
     "facade-load-recursive-vs-flat": (Retort, [op_fload(Node, NODE_DATA), op_fload(Flat, FLAT_DATA)]),
+    # a request that fails (always) next to one that succeeds (always) on the same recursive models
+    "failing-request-vs-success": (failing_retort, [op_load(FM, {"f": None}), op_load(FC, FC_DATA)]),
+    "failing-request-vs-success-facade": (failing_retort, [op_fload(FM, {"f": None}), op_fload(FC, FC_DATA)]),
     # a retort used directly by one thread and as a provider inside another retort by the other
     "retort-in-recipe": (Bundle, [on("shared", op_load(Weighted, WEIGHTED_DATA)), on("outer", op_load(Weighted, WEIGHTED_DATA))]),
     "retort-in-recipe-node": (Bundle, [on("outer", op_load(Node, NODE_DATA)), on("shared", op_load(List[Node], [NODE_DATA]))]),
 }
 QUICK_SWEEP = ("self-recursive-same", "mutual-recursive-different-ends")
+THOROUGH_ONLY = ("failing-request-vs-success-facade", "facade-load-recursive-vs-flat", "retort-in-recipe-node")   # variants of scenarios the quick tier has
 
 _REF = {}
 _LEN = {}
@@ -292,7 +334,7 @@ def run_exhaustive(ctx):
     if ctx.tier == "quick":
         # the other scenarios: a stride over their points with a shard-dependent phase
         for name in SCENARIOS:
-            if name in QUICK_SWEEP or len(SCENARIOS[name][1]) != 2:
+            if name in QUICK_SWEEP or name in THOROUGH_ONLY or len(SCENARIOS[name][1]) != 2:
                 continue
             lens = lengths(name)
             for x in (0, 1):
@@ -307,7 +349,7 @@ def run_exhaustive(ctx):
 
 
 def run_case(ctx, rng, idx):
-    name = rng.choice(list(SCENARIOS))
+    name = rng.choice([n for n in SCENARIOS if ctx.tier == "thorough" or n not in THOROUGH_ONLY])
     nthreads = len(SCENARIOS[name][1])
     lens = lengths(name)
     kind = rng.choice(["two-preemptions", "two-preemptions", "pct", "random", "random"])
